@@ -16,8 +16,8 @@ import (
 const errPkg = modPath + "/pkg/errors"
 
 type attrs struct {
-	e        *Engine
-	famOf    map[*ssa.Function]int // builder -> code family (1..4), 0 = takes the code as first argument
+	e         *Engine
+	famOf     map[*ssa.Function]int // builder -> code family (1..4), 0 = takes the code as first argument
 	isBuilder map[*ssa.Function]bool
 }
 
